@@ -49,6 +49,10 @@ def main():
         emit({"type": "replay", **out})
         emit({"type": "done"})
         return 0
+    if mode == "serve":
+        from sim.p_c17 import serve
+        serve(prop)
+        return 0
     if mode == "directed":
         for ent in args["entries"]:
             try:
@@ -96,6 +100,10 @@ def main():
                 lst[0]["more"] += 1
         if len(samples) < 3 and res.get("sample") and not res["violations"]:
             samples.append(res["sample"])
+    if hasattr(prop, "warm_recheck"):
+        for v in prop.warm_recheck():
+            v["case_index"] = -1
+            viol_by_sig.setdefault((v["sig_id"], v.get("kf")), []).append(v)
     # minimise the first violation of each signature (bounded)
     out_viol = []
     for sig_id, lst in sorted(viol_by_sig.items(), key=lambda kv: repr(kv[0])):
